@@ -54,7 +54,16 @@ fn hkind(h: Hot) -> HKind {
 
 fn reg_op(case: &mut Case, h: Hot) -> Op {
     let setter = matches!(h, Hot::Infix(_, _, true, _));
-    let hid = case.add_handler(HandlerSpec::plain(hkind(h), if setter { Ret::Arg(1) } else { Ret::Marker }));
+    // one registration in seven installs a handler that ALWAYS fails: an evaluation that overlaps it must
+    // either fail (and have invoked only that handler) or use another registration entirely
+    let ret = if setter {
+        Ret::Arg(1)
+    } else if case.handlers.len() % 7 == 3 {
+        Ret::Fail
+    } else {
+        Ret::Marker
+    };
+    let hid = case.add_handler(HandlerSpec::plain(hkind(h), ret));
     // a SETTER marker must still identify its registration: wrap through Marker when not setter;
     // for setters the stored value is the right operand, identification comes from the handler log
     match h {
